@@ -305,6 +305,9 @@ func c18Dynamic(cs C18Case) string {
 	}
 	hd := c.Headers(1)[0]
 	m := diam.NewMessage(hd.Code, 0x80, hd.App, 1, 2, c.A.D.P)
+	if c18Used(m, src.Interface()) != nil {
+		return "Marshal into a message that already holds AVPs failed"
+	}
 	if err := m.Marshal(src.Interface()); err != nil {
 		return "Marshal failed: " + err.Error()
 	}
@@ -337,6 +340,19 @@ func c18Dynamic(cs C18Case) string {
 		}
 	}
 	return ""
+}
+
+// c18Used makes every other message a used one before the Marshal under test: it already holds
+// an AVP and has been marshalled into once (Marshal replaces the AVPs of the message, so the
+// expected result is the same as for a fresh message).
+var c18CurUsed bool // set per case from a hash of its description (so a replay takes the same path)
+
+func c18Used(m *diam.Message, src interface{}) error {
+	if !c18CurUsed {
+		return nil
+	}
+	m.AddAVP(diam.NewAVP(60001, 0, 0, datatype.OctetString("left over from an earlier use")))
+	return m.Marshal(src)
 }
 
 // c18Equal compares field values: empty == nil for slices, times by Unix second, floats by bits.
@@ -643,6 +659,9 @@ func c18StaticEval(cs C18Case) string {
 			want = append(want, refcodec.EncodeAVP(n)...)
 		}
 		m := diam.NewMessage(257, 0x80, 0, 1, 2, parser)
+		if c18Used(m, src) != nil {
+			return "Marshal into a message that already holds AVPs failed"
+		}
 		if err := m.Marshal(src); err != nil {
 			return "Marshal failed: " + err.Error()
 		}
@@ -675,6 +694,7 @@ func c18StaticEval(cs C18Case) string {
 }
 
 func c18Eval(cs C18Case) string {
+	c18CurUsed = ev.HS(cs.Desc())&1 == 1
 	return safely(func() string {
 		if cs.Static != "" {
 			return c18StaticEval(cs)
@@ -754,7 +774,7 @@ func runC18(ctx *ev.Ctx) {
 			}
 		}
 	}
-	ctx.Rule = "struct types built with reflect.StructOf: one field for each of 21 dictionary AVPs (including a vendor-specific AVP whose must attribute does not list V and a vendor-less one whose must does) (every scalar data type, a vendor-specific AVP, Float32/64, IPv4/6, IPFilterRule, QoSFilterRule from a generated dictionary) x each Go holder type (native scalar, datatype type, net.IP, []byte, time.Time) x wrapper {T, *T, []T, []*T} x nine tag forms (plain, omitempty, each with a second key before/after, other keys carrying their own ,omitempty option before/after) x values {boundary atoms; nil pointer; nil, empty, 1-, 2- and 4-element slices}; plus static shapes: nested struct, pointer to struct, slice of structs with omitempty members, slice of pointers, anonymous embedded struct (first, after a tagged field, in the middle), group in group, AVP / *AVP / []*AVP fields; the struct shapes also in a message carrying a private dictionary that defines every name used with another code, other flags and vendor ids (members of nested structs must be resolved through the message's dictionary too). Oracle: the AVP bytes Marshal produces equal the AVPs built by hand from the reference dictionary entry (code, vendor id, M from must, V from vendor, typed value); Unmarshal directly and after Serialize+ReadMessage reproduces the field values (nil == empty for slices, times by second, floats by bits)."
+	ctx.Rule = "struct types built with reflect.StructOf: one field for each of 21 dictionary AVPs (including a vendor-specific AVP whose must attribute does not list V and a vendor-less one whose must does) (every scalar data type, a vendor-specific AVP, Float32/64, IPv4/6, IPFilterRule, QoSFilterRule from a generated dictionary) x each Go holder type (native scalar, datatype type, net.IP, []byte, time.Time) x wrapper {T, *T, []T, []*T} x nine tag forms (plain, omitempty, each with a second key before/after, other keys carrying their own ,omitempty option before/after) x values {boundary atoms; nil pointer; nil, empty, 1-, 2- and 4-element slices}; plus static shapes: nested struct, pointer to struct, slice of structs with omitempty members, slice of pointers, anonymous embedded struct (first, after a tagged field, in the middle), group in group, AVP / *AVP / []*AVP fields; the struct shapes also in a message carrying a private dictionary that defines every name used with another code, other flags and vendor ids (members of nested structs must be resolved through the message's dictionary too). Every other case marshals into a message that already holds an AVP and has been marshalled into before. Oracle: the AVP bytes Marshal produces equal the AVPs built by hand from the reference dictionary entry (code, vendor id, M from must, V from vendor, typed value); Unmarshal directly and after Serialize+ReadMessage reproduces the field values (nil == empty for slices, times by second, floats by bits)."
 	ctx.Assume = []string{"holder types are those for which the reflect code has a conversion path (AssignableTo / ConvertibleTo); Address holders carry IPv4 / IPv6 only"}
 }
 
